@@ -36,13 +36,13 @@ theorem ledger_fix_irrelevant (h : List TOp) (k : Key) (hp : panicFree h k = tru
       simp only at hx
       by_cases hc : ((info r e.id).isNone && touches e k) = true
       · cases ho : outcome e.chain with
-        | pass => simp [contrib, gaugeDelta, hc, ho, countsPass, e2]
-        | block => simp [contrib, gaugeDelta, hc, ho, countsPass]
+        | pass => simp [contrib, contribI, Op.addr, gaugeDelta, gaugeDeltaI, Op.addr, hc, ho, countsPass, e2]
+        | block => simp [contrib, contribI, Op.addr, gaugeDelta, gaugeDeltaI, Op.addr, hc, ho, countsPass]
         | panic => simp [hc, ho] at hx
       · have hc' : ((info r e.id).isNone && touches e k) = false := by simpa using hc
-        simp [contrib, gaugeDelta, hc']
-    | trace id err => simp [contrib, gaugeDelta]
-    | exit id err => simp [contrib, gaugeDelta]
+        simp [contrib, contribI, Op.addr, gaugeDelta, gaugeDeltaI, Op.addr, hc']
+    | trace id err => simp [contrib, contribI, Op.addr, gaugeDelta, gaugeDeltaI, Op.addr]
+    | exit id err => simp [contrib, contribI, Op.addr, gaugeDelta, gaugeDeltaI, Op.addr]
 
 theorem reclog_fix_irrelevant (h : List TOp) (hp : noPanic h = true) : recLog false h = recLog true h := by
   induction h with
@@ -57,16 +57,16 @@ theorem reclog_fix_irrelevant (h : List TOp) (hp : noPanic h = true) : recLog fa
       simp only at hx
       by_cases hc : (info r e.id).isNone = true
       · cases ho : outcome e.chain with
-        | pass => simp [recContrib, hc, ho]
-        | block => simp [recContrib, hc, ho]
+        | pass => simp [recContrib, recContribI, Op.addr, hc, ho]
+        | block => simp [recContrib, recContribI, Op.addr, hc, ho]
         | panic => simp [hc, ho] at hx
       · have hc' : (info r e.id).isNone = false := by
           cases h1 : (info r e.id).isNone with
           | true => exact absurd h1 hc
           | false => rfl
-        simp [recContrib, hc']
-    | trace id err => simp [recContrib]
-    | exit id err => simp [recContrib]
+        simp [recContrib, recContribI, Op.addr, hc']
+    | trace id err => simp [recContrib, recContribI, Op.addr]
+    | exit id err => simp [recContrib, recContribI, Op.addr]
 
 /-! ## conservation: pass + block tokens = requested tokens, on every node, in every time window -/
 
@@ -111,12 +111,12 @@ theorem pass_plus_block (p : Nat → Bool) (h : List TOp) (k : Key) :
     | entry e =>
       by_cases hc : ((info r e.id).isNone && touches e k) = true
       · by_cases hp : p t = true <;> cases ho : outcome e.chain <;>
-          simp [contrib, hc, ho, hp, tally_cons, tally_nil, evBucket, concBucket] <;> omega
+          simp [contrib, contribI, Op.addr, hc, ho, hp, tally_cons, tally_nil, evBucket, concBucket] <;> omega
       · have hc' : ((info r e.id).isNone && touches e k) = false := by simpa using hc
-        simp [contrib, hc', tally_nil]
-    | trace id err => simp [contrib, tally_nil]
+        simp [contrib, contribI, Op.addr, hc', tally_nil]
+    | trace id err => simp [contrib, contribI, Op.addr, tally_nil]
     | exit id err =>
-      simp only [contrib]
+      simp only [contrib, contribI, Op.addr]
       cases info r id with
       | none => simp [tally_nil]
       | some i =>
@@ -318,7 +318,7 @@ theorem gauge_eq_live (h : List TOp) (k : Key) : gauge true h k = (live h k : In
           have hne : e.id ≠ x := by intro e1; subst e1; simp [hr] at hs
           simp only [liveB, info_entry_other _ _ _ _ hne]
         simp only [entryIds, hr, Option.isNone_none, if_true, List.countP_cons, hcong]
-        simp only [liveB, info_entry_fresh _ _ _ hr, gaugeDelta, hr, Option.isNone_none, Bool.true_and]
+        simp only [liveB, info_entry_fresh _ _ _ hr, gaugeDelta, gaugeDeltaI, Op.addr, hr, Option.isNone_none, Bool.true_and]
         cases ho : outcome e.chain <;> cases ht : touches e k <;> simp [countsPass, ho]
       | some i =>
         have hcong : (entryIds r).countP (liveB ((t, Op.entry e) :: r) k) = (entryIds r).countP (liveB r k) := by
@@ -328,7 +328,7 @@ theorem gauge_eq_live (h : List TOp) (k : Key) : gauge true h k = (live h k : In
           by_cases hne : e.id = x
           · subst hne; rw [info_entry_dup _ _ _ _ hr, hr]
           · rw [info_entry_other _ _ _ _ hne]
-        simp [entryIds, hr, hcong, gaugeDelta]
+        simp [entryIds, hr, hcong, gaugeDelta, gaugeDeltaI, Op.addr]
     | trace j err =>
       have hcong : (entryIds r).countP (liveB ((t, Op.trace j err) :: r) k) = (entryIds r).countP (liveB r k) := by
         apply List.countP_congr
@@ -340,9 +340,9 @@ theorem gauge_eq_live (h : List TOp) (k : Key) : gauge true h k = (live h k : In
           | none => rw [info_trace_none _ _ _ _ hr]
           | some i => rw [info_trace_some _ _ _ _ _ hr]; split_ifs <;> rfl
         · rw [info_trace_other _ _ _ _ _ hne]
-      simp [entryIds, hcong, gaugeDelta]
+      simp [entryIds, hcong, gaugeDelta, gaugeDeltaI, Op.addr]
     | exit j err =>
-      simp only [entryIds, gaugeDelta]
+      simp only [entryIds, gaugeDelta, gaugeDeltaI, Op.addr]
       cases hr : info r j with
       | none =>
         have hcong : (entryIds r).countP (liveB ((t, Op.exit j err) :: r) k) = (entryIds r).countP (liveB r k) := by
